@@ -522,7 +522,7 @@ static int run_c02(Ctx & cx, const Args & a)
       // stratified: every isotope at level 0 with 3 modes chosen by hash, highest level with 2 modes, plus 1/12 of the rest
       uint64_t h = mix(seed, my);
       int maxl = catalog::dbd_max_level(p.name);
-      take = (p.level == 0 && (h % 7) == 0) || (p.level == maxl && (h % 5) == 0) || (h % 23) == 0;
+      take = (p.level == 0 && (h % 4) == 0) || (p.level == maxl && (h % 3) == 0) || (h % 11) == 0;
     }
     if (!take) continue;
     if ((taken++ % nsh) != (size_t)shard) continue;
